@@ -1090,7 +1090,7 @@ def c20(run, scratch):
     validate_pure_trace(run, scratch, "Trace_Threads", "Trace_Retrace", events, workers=14 if t else 10, timeout=3000,
                         corrupt=_retrace_trace_corrupt, canary_pred=_retrace_canary_pred,
                         signature=lambda ev: {"thread": ev.get("thread"), "query_kind": ev.get("q", {}).get("t")})
-    tev = harness_trace(scratch, "threadstext", "threadstext", ["--seed", run.seed, "--n", 16 if t else 6, "--reps", 300 if t else 150])
+    tev = harness_trace(scratch, "threadstext", "threadstext", ["--seed", run.seed, "--n", 8 if t else 6, "--reps", 300 if t else 150])
 
     def tcorrupt(ev):
         ev["others"] = [ev["out"]]
